@@ -131,9 +131,15 @@ class SymEngine:
     # ------------------------------------------------------------------ path state
 
     def _reset_path(self, prefix):
+        # the prefix is a cube of decision literals: all of them are asserted when the path
+        # starts, so their order of appearance during the run does not matter (pint keys some
+        # caches on id(), which makes dict probe order vary between paths).  Positional replay
+        # (pos) is only a fast path that saves solver calls while the order does agree.
         self.prefix = prefix
         self.pos = 0
-        self.decisions = []  # entries: [kind, data, outcome, sibling_info]
+        self.prefix_choices = {d[1][0]: d[2] for d in prefix if d[0] == "C"}
+        self.decisions = []  # every decision met on this path: [kind, data, outcome, sibling_info]
+        self.fresh = []  # the decisions that were not part of the prefix
         self.vars = {}
         self.choices = {}
         self.model = None
@@ -189,17 +195,19 @@ class SymEngine:
         n = len(options)
         if n == 0:
             raise HarnessError("choice over nothing")
-        if self.pos < len(self.prefix):
-            kind, data, outcome = self.prefix[self.pos][:3]
-            if kind != "C" or data != (name, n):
-                raise HarnessError(f"nondeterministic replay at choice {name}: recorded {kind} {data}")
-            idx = outcome
+        if name in self.prefix_choices:
+            idx = self.prefix_choices[name]
+            if self.pos is not None and self.pos < len(self.prefix) and self.prefix[self.pos][0] == "C" and self.prefix[self.pos][1] == (name, n):
+                self.pos += 1
+            else:
+                self.pos = None
             self.decisions.append(["C", (name, n), idx, None])
         else:
             idx = 0
-            self.decisions.append(["C", (name, n), 0, list(range(1, n))])
+            ent = ["C", (name, n), 0, list(range(1, n))]
+            self.decisions.append(ent)
+            self.fresh.append(ent)
             self.stats.choices += 1
-        self.pos += 1
         self.choices[name] = idx
         return options[idx]
 
@@ -264,17 +272,13 @@ class SymEngine:
             return True
         if z3.is_false(e):
             return False
-        if self.pos < len(self.prefix):
+        if self.pos is not None and self.pos < len(self.prefix):
             kind, data, outcome = self.prefix[self.pos][:3]
-            if kind != "B" or not z3.eq(data, e):
-                raise HarnessError(
-                    "nondeterministic replay: decision %d was %s %s, now B %s"
-                    % (self.pos, kind, data, e.sexpr()[:200])
-                )
-            self.decisions.append(["B", e, outcome, None])
-            self.pos += 1
-            self._add(e if outcome else z3.Not(e))
-            return outcome
+            if kind == "B" and z3.eq(data, e):
+                self.decisions.append(["B", e, outcome, None])
+                self.pos += 1
+                return outcome  # the literal was asserted when the path started
+            self.pos = None  # different order on this path: decide the rest with the solver
         if len(self.decisions) >= self.max_decisions:
             self.stats.budget += 1
             raise BudgetExceeded(f"more than {self.max_decisions} decisions on one path")
@@ -299,8 +303,9 @@ class SymEngine:
             sib = True  # cannot prune: explore it, the path will be flagged
         else:
             sib = r == z3.sat
-        self.decisions.append(["B", e, side, sib])
-        self.pos += 1
+        ent = ["B", e, side, sib]
+        self.decisions.append(ent)
+        self.fresh.append(ent)
         self.stats.decisions += 1
         if sib:
             self.stats.forks += 1
@@ -356,22 +361,17 @@ class SymEngine:
             raise Concretized("realisation of an unbounded symbolic value: " + t.sexpr()[:160])
         self.stats.realizations += 1
         while True:
-            if self.pos < len(self.prefix):
+            if self.pos is not None and self.pos < len(self.prefix):
                 kind, data, outcome = self.prefix[self.pos][:3]
-                if kind != "R" or not z3.eq(data[0], st):
-                    raise HarnessError(
-                        "nondeterministic replay: decision %d was %s, now R %s"
-                        % (self.pos, kind, st.sexpr()[:200])
-                    )
-                val = data[1]
-                self.decisions.append(["R", data, outcome, None])
-                self.pos += 1
-                eqc = st == z3.RealVal(f"{val.numerator}/{val.denominator}")
-                self._add(eqc if outcome else z3.Not(eqc))
-                if outcome:
-                    self._remember(t, val)
-                    return val
-                continue
+                if kind == "R" and z3.eq(data[0], st):
+                    val = data[1]
+                    self.decisions.append(["R", data, outcome, None])
+                    self.pos += 1
+                    if outcome:
+                        self._remember(t, val)
+                        return val
+                    continue
+                self.pos = None
             if len(self.decisions) >= self.max_decisions:
                 self.stats.budget += 1
                 raise BudgetExceeded("too many decisions (realisation)")
@@ -383,8 +383,9 @@ class SymEngine:
                 self.stats.unknown += 1
                 self.path_flags.add("unknown-sibling")
             sib = r != z3.unsat
-            self.decisions.append(["R", (st, val), True, sib])
-            self.pos += 1
+            ent = ["R", (st, val), True, sib]
+            self.decisions.append(ent)
+            self.fresh.append(ent)
             self.stats.decisions += 1
             if sib:
                 self.stats.forks += 1
@@ -592,6 +593,12 @@ class SymEngine:
             self._reset_path(prefix)
             self._q.PLACEHOLDERS.reset_path()
             self.solver.push()
+            for kind, data, outcome in (d[:3] for d in prefix):
+                if kind == "B":
+                    self.solver.add(data if outcome else z3.Not(data))
+                elif kind == "R":
+                    eqc = data[0] == z3.RealVal(f"{data[1].numerator}/{data[1].denominator}")
+                    self.solver.add(eqc if outcome else z3.Not(eqc))
             CURRENT = self
             self.stats.paths += 1
             status = "ok"
@@ -654,12 +661,12 @@ class SymEngine:
                 if fl.startswith("float-demand"):
                     self.inconclusive.append({"label": "float-demand", "why": fl})
             # schedule siblings of the decisions made fresh on this path
-            base = len(prefix)
-            for i in range(len(self.decisions) - 1, base - 1, -1):
-                kind, data, outcome, sib = self.decisions[i]
+            base = [d[:3] for d in prefix]
+            for i in range(len(self.fresh) - 1, -1, -1):
+                kind, data, outcome, sib = self.fresh[i]
                 if not sib:
                     continue
-                head = [d[:3] for d in self.decisions[:i]]
+                head = base + [d[:3] for d in self.fresh[:i]]
                 if kind == "C":
                     for k in reversed(sib):
                         stack.append(head + [["C", data, k]])
